@@ -120,6 +120,41 @@ def single_implementation(index, rep):
         raise AnalysisError("no class derives from UnitConversions (Food expected)")
 
 
+def no_late_binding(index, rep):
+    """a formula kept for later (a lambda or local function stored in a table) that is written inside a loop or a comprehension and reads the
+    loop variable sees the variable's LAST value when it is finally called: every entry of the table computes the last nutrient's / unit's
+    factor.  (A function called on the spot - a sort key, an argument of map/filter - is not kept and is left alone.)"""
+    rule = "C10.BIND"
+    n = 0
+    for rel in (UC, FOOD):
+        tree = index.module(rel)
+        for node in ast.walk(tree):
+            if isinstance(node, (ast.ListComp, ast.SetComp, ast.GeneratorExp, ast.DictComp)):
+                vars_ = {x.id for g in node.generators for x in ast.walk(g.target) if isinstance(x, ast.Name)}
+                bodies = [node.elt] if not isinstance(node, ast.DictComp) else [node.key, node.value]
+            elif isinstance(node, ast.For):
+                vars_ = {x.id for x in ast.walk(node.target) if isinstance(x, ast.Name)}
+                bodies = node.body
+            else:
+                continue
+            for b in bodies:
+                for lam in [x for x in ast.walk(b) if isinstance(x, (ast.Lambda, ast.FunctionDef))]:
+                    params = {a.arg for a in lam.args.args + lam.args.kwonlyargs}
+                    body = [lam.body] if isinstance(lam, ast.Lambda) else lam.body
+                    free = {x.id for s_ in body for x in ast.walk(s_) if isinstance(x, ast.Name) and isinstance(x.ctx, ast.Load)} - params
+                    hit = sorted(free & vars_)
+                    par = getattr(lam, "_parent", None)
+                    immediate = (isinstance(par, ast.Call) and (lam in par.args or par.func is lam)) or isinstance(par, ast.keyword)
+                    if hit and not immediate:
+                        n += 1
+                        rep.violation(rule, f"formula-closes-over-loop-variable:{hit[0]}:{norm_src(lam)[:60]}",
+                                      f"this formula is kept for later but reads the loop variable `{hit[0]}`, which has its last value by the time the "
+                                      "formula is called (late binding): every entry built in this loop converts with the last entry's factor",
+                                      loc=loc(rel, lam))
+    if n == 0:
+        rep.ok(rule, "no stored formula of the conversion tables reads a loop variable", detail="lambdas / local functions written in loops and comprehensions of unit_conversions.py and food.py")
+
+
 def run(index, rep):
     rep.trusted_base = [
         "CPython ast module parses the source the interpreter would run",
@@ -129,6 +164,7 @@ def run(index, rep):
     ]
     rep.guard(pure, index, rep)
     rep.guard(single_implementation, index, rep)
+    rep.guard(no_late_binding, index, rep)
     conv = rep.guard(build_conversions, index)
     if conv is None:
         return
